@@ -545,11 +545,15 @@ func c07LongLines(s *sut.SUT, c *ev.Check) {
 		n    int
 		pos  string
 		outF bool
+		ch   string // input channel: plain file, gzip file (one or two members), stdin
 	}
 	var jobs []job
 	for _, n := range []int{limit - 2, limit - 1, limit, limit + 1, limit + 2, 2 * limit, 10 * limit} {
-		for _, pos := range []string{"first", "middle", "last", "last-no-newline"} {
-			jobs = append(jobs, job{n, pos, false}, job{n, pos, true})
+		for pi, pos := range []string{"first", "middle", "last", "last-no-newline"} {
+			jobs = append(jobs, job{n, pos, false, "file"}, job{n, pos, true, "file"})
+			// the same through the decompressing reader and through stdin (stdin cannot go with -o
+			// under --encrypt only; plain -o is fine)
+			jobs = append(jobs, job{n, pos, pi%2 == 0, "gz"}, job{n, pos, pi%2 == 1, "gz2"}, job{n, pos, pi%2 == 0, "stdin"})
 		}
 	}
 	parallelDo(len(jobs), func(ji int) {
@@ -576,22 +580,40 @@ func c07LongLines(s *sut.SUT, c *ev.Check) {
 			data = append(data, '\n')
 		}
 		in := filepath.Join(dir, "in.log")
-		os.WriteFile(in, data, 0o644)
-		args := []string{"redact", in}
+		run := sut.Run{Dir: dir}
+		args := []string{"redact"}
+		switch jb.ch {
+		case "file":
+			os.WriteFile(in, data, 0o644)
+			args = append(args, in)
+		case "gz":
+			in += ".gz"
+			os.WriteFile(in, gz(data), 0o644)
+			args = append(args, in)
+		case "gz2":
+			// two members, the boundary inside the long line
+			in += ".gz"
+			h := bytes.Index(data, long) + len(long)/2
+			os.WriteFile(in, gz(data[:h], data[h:]), 0o644)
+			args = append(args, in)
+		case "stdin":
+			run.Stdin = data
+		}
 		outp := filepath.Join(dir, "out.log")
 		if jb.outF {
 			args = append(args, "-o", outp)
 		}
-		r := s.CLI(sut.Run{Args: args, Dir: dir})
+		run.Args = args
+		r := s.CLI(run)
 		out := r.Stdout
 		if jb.outF {
 			out, _ = os.ReadFile(outp)
 		}
 		c.Count("long_line_runs", 1)
-		c.Eval(fmt.Sprintf("long|%d|%s|%v", jb.n, jb.pos, jb.outF))
-		desc := map[string]any{"kind": "long-line", "line_bytes": jb.n, "position": jb.pos, "to_output_file": jb.outF}
+		c.Eval(fmt.Sprintf("long|%d|%s|%v|%s", jb.n, jb.pos, jb.outF, jb.ch))
+		desc := map[string]any{"kind": "long-line", "line_bytes": jb.n, "position": jb.pos, "to_output_file": jb.outF, "input_channel": jb.ch}
 		viol := func(kind, what string) {
-			c.Violation("long-line-"+kind, fmt.Sprintf("line of %d bytes at position %s: %s (exit %d, stderr %s)", jb.n, jb.pos, what, r.Exit, short(bytes.TrimSpace(r.Stderr), 160)), desc)
+			c.Violation("long-line-"+kind, fmt.Sprintf("line of %d bytes at position %s (input: %s): %s (exit %d, stderr %s)", jb.n, jb.pos, jb.ch, what, r.Exit, short(bytes.TrimSpace(r.Stderr), 160)), desc)
 		}
 		if r.TimedOut {
 			c.Inconclusive("watchdog")
